@@ -6,7 +6,7 @@
      Clean k                                    (kernel cleaner: one process_ccq_entry callback)
    cf = (timeouts, which handleNATEntries: pinned or repaired).  The kernel steps Clean/Packet are hand models of C code. *)
 From Coq Require Import List NArith ZArith Bool.
-From Verif.C14 Require Import Model Spec Proofs Safety SafetyCor Liveness LivenessGen Witness.
+From Verif.C14 Require Import Model Spec Proofs Safety SafetyCor Liveness LivenessGen FullScan Witness.
 Import ListNotations.
 Open Scope Z_scope.
 
@@ -152,6 +152,63 @@ Theorem c14_liveness_pair_rev_first : forall cf s kf kr f r,
   lookup kf (ct s') = None /\ lookup kr (ct s') = None.
 Proof. exact live_pair_rev_first. Qed.
 Print Assumptions c14_liveness_pair_rev_first.
+
+(* WHOLE-TABLE LIVENESS.  Between two scans (`fresh`: pairing table and queue empty, no all-zero key, NAT reverse keys
+   have a protocol), one complete round - every key of the table visited exactly once in ANY order, then the final
+   loop reaching every pairing record in ANY order, then the cleaner reaching every queue entry in ANY order, with no
+   dataplane step in between (`complete_round`) - removes every entry that was `deletable` when the scan started:
+   normal and reverse entries idle past their timeout by the kernel time the scanner reads, and forward entries
+   whose reverse entry is absent.  This includes reverse entries with any number of forward entries, in every visit
+   order. *)
+Theorem c14_full_scan_liveness : forall cf order dr cl s k e,
+  fresh s -> complete_round cf order dr cl s ->
+  lookup k (ct s) = Some e -> deletable cf (ct s) k e (now_used s) ->
+  lookup k (ct (round cf order dr cl s)) = None.
+Proof. exact full_scan_liveness. Qed.
+Print Assumptions c14_full_scan_liveness.
+
+(* the round the real Scan() + cleaner perform (final loop over the whole pairing table, cleaner pass over the whole
+   queue) is such a round *)
+Theorem c14_scan_round_is_complete : forall cf order s,
+  NoDup order -> (forall x, lookup x (ct s) <> None -> In x order) ->
+  scan_round cf order s =
+    round cf order (map fst (info (run cf s (map Judge order)))) (map fst (q (drain_all cf (run cf s (map Judge order))))) s
+  /\ complete_round cf order (map fst (info (run cf s (map Judge order))))
+                    (map fst (q (drain_all cf (run cf s (map Judge order))))) s.
+Proof. intros. split; [apply scan_round_is_round|apply scan_round_complete; auto]. Qed.
+Print Assumptions c14_scan_round_is_complete.
+
+(* a round leaves a fresh state behind and only ever removes entries *)
+Theorem c14_round_fresh : forall cf order dr cl s,
+  fresh s -> complete_round cf order dr cl s ->
+  fresh (round cf order dr cl s) /\
+  (forall x, lookup x (ct (round cf order dr cl s)) = lookup x (ct s) \/ lookup x (ct (round cf order dr cl s)) = None).
+Proof. exact round_fresh. Qed.
+Print Assumptions c14_round_fresh.
+
+(* FORWARD ENTRIES: WITHIN TWO ROUNDS.  A forward entry whose reverse entry was deletable is gone after two complete
+   rounds.  The first round removes the reverse entry (theorem above) and with it the forward entry that was queued
+   together with it.  A forward entry that was NOT queued with it - it lost the single pairing record of the reverse
+   entry to another forward entry of the same reverse entry, or (pinned code) carried the same timestamp and its own
+   queue entry was not reached - is left as a forward entry without reverse entry; the second round removes it. *)
+Theorem c14_fwd_within_two_rounds : forall cf o1 d1 c1 o2 d2 c2 s kf f r,
+  fresh s ->
+  lookup kf (ct s) = Some f -> e_kind f = KFwd ->
+  lookup (e_rev f) (ct s) = Some r -> deletable cf (ct s) (e_rev f) r (now_used s) ->
+  complete_round cf o1 d1 c1 s ->
+  complete_round cf o2 d2 c2 (round cf o1 d1 c1 s) ->
+  lookup kf (ct (round cf o2 d2 c2 (round cf o1 d1 c1 s))) = None.
+Proof. exact fwd_two_rounds. Qed.
+Print Assumptions c14_fwd_within_two_rounds.
+
+(* ... and one round is really not enough: two forward entries of one reverse entry, visited before it (here the
+   cleaner happens to reach the reverse entry's own queue entry first, so both forward entries wait for round two). *)
+Theorem c14_shared_reverse_needs_two_rounds : forall cf, cf = pinned \/ cf = repaired ->
+  let s1 := w_round cf [kF; kF2; kR] (init w_shared (5000 * sec) 0) in
+  let s2 := w_round cf [kF2; kF] s1 in
+  map fst (ct s1) = [kF; kF2] /\ ct s2 = [].
+Proof. exact shared_reverse_two_rounds. Qed.
+Print Assumptions c14_shared_reverse_needs_two_rounds.
 
 (* the judged idle time only grows with the clock (so a stale cached kernel time errs on the side of keeping) *)
 Theorem c14_expired_monotone : forall t now now' p e,
